@@ -619,8 +619,9 @@ def rule_r5(prog, res):
             guardspec.check(res, 'R5', f, a, 're-customisation of the parent '
                             '(%s)' % unparse(a.value.keywords[0])[:30]
                             if a.value.keywords else 'parent customisation',
-                            allowed=[('_ is None', False),
-                                     ('_.__extends__ is None', False)],
+                            allowed=[('child_attrs is None', False),
+                                     ('child_attrs_all is None', False),
+                                     ('retval.__extends__ is None', False)],
                             key='_process_child_attrs|parent|%s' % (
                                 a.value.keywords[0].arg
                                 if a.value.keywords else '?'))
